@@ -213,8 +213,14 @@ class Unit:
                         f"Unit expression {unit_expr!r} is not valid UTF-8: {e}"
                     )
 
-            # this cache substantially speeds up unit conversions
-            if registry and unit_expr in registry._unit_object_cache:
+            # this cache substantially speeds up unit conversions; it maps a
+            # string to what the registry says it means, so it is not used when
+            # the caller supplies the value itself (e.g. Unit.copy)
+            if (
+                base_value is None
+                and registry
+                and unit_expr in registry._unit_object_cache
+            ):
                 return registry._unit_object_cache[unit_expr]
             unit_cache_key = unit_expr
             unit_expr = parse_unyt_expr(unit_expr)
@@ -244,6 +250,9 @@ class Unit:
         #
 
         if base_value is not None:
+            # the value does not come from the registry: do not memoise it as
+            # the meaning of the string (the unit may predate a registry edit)
+            unit_cache_key = None
             # check that base_value is a float or can be converted to one
             try:
                 base_value = float(base_value)
